@@ -38,8 +38,11 @@ type sys struct {
 	lastKey string
 
 	// observations after the last step (= before the next one)
-	outside []string
-	bDump   []string
+	outside  []string
+	bDump    []string
+	baseDump []string
+
+	seenSig map[string]bool
 }
 
 func (s *sys) NumOps() int           { return len(s.ops) }
@@ -144,10 +147,12 @@ func (s *sys) Reset() error {
 	s.depth = 0
 
 	bd := s.base.VerifDump()
+	s.baseDump = bd
 	s.outside = s.outsideSnap(bd)
 	s.bDump = s.treeLines(s.base, bd, basePath)
 
-	rd := s.treeLines(s.ref, s.ref.VerifDump(), "")
+	refDump := s.ref.VerifDump()
+	rd := s.treeLines(s.ref, refDump, "")
 	if d := fsx.DiffLines(rd, s.bDump); d != "" {
 		return fmt.Errorf("setup of %s: B and the reference tree differ initially: %s", s.fsName, d)
 	}
@@ -156,14 +161,14 @@ func (s *sys) Reset() error {
 		return fmt.Errorf("setup of %s: initial cwd base=%q ref=%q", s.fsName, c, s.ref.CurDir())
 	}
 
-	s.lastKey = s.key(bd)
+	s.lastKey = s.key(bd, refDump)
 
 	return nil
 }
 
-func (s *sys) key(baseDump []string) string {
+func (s *sys) key(baseDump, refDump []string) string {
 	return strings.Join(baseDump, "\n") + "\ncwd=" + s.base.CurDir() + "\n--ref--\n" +
-		strings.Join(s.ref.VerifDump(), "\n") + "\ncwd=" + s.ref.CurDir()
+		strings.Join(refDump, "\n") + "\ncwd=" + s.ref.CurDir()
 }
 
 // pathOf is the path of a VerifDump line (directory lines end with "/").
@@ -265,6 +270,14 @@ func (s *sys) treeLines(v hooked, dump []string, prefix string) []string {
 
 		if rel := strings.TrimPrefix(p, prefix); rel != "" {
 			l += " mt=" + mtimeClass(v, p)
+		} else if s.fsName == "OrefaFS" {
+			// The root of an OrefaFS is hard-wired to owner 0:0 while every
+			// directory it creates (B included) belongs to its default user:
+			// the owner of the root line is not comparable.
+			if f := strings.Fields(l); len(f) >= 4 {
+				f[3] = "-:-"
+				l = strings.Join(f, " ")
+			}
 		}
 
 		out = append(out, l)
@@ -307,29 +320,30 @@ func vResolve(cwd, p string) (clean string, escaped, dotdot bool) {
 	return "/" + strings.Join(stack, "/"), escaped, dotdot
 }
 
-// pathClass: abs|rel , escape|dotdot-inside|clean|root|empty , plain|dot|trailing-slash|double-slash.
+// pathClass: "empty", or abs|rel followed by ONE class chosen by priority:
+// escape (a ".." is clamped at the virtual root) > dotdot-inside > root >
+// double-slash > trailing-slash > dot > clean.
 func pathClass(cwd, p string) string {
 	if p == "" {
 		return "empty"
 	}
 
-	c := "rel"
+	c := "rel,"
 	if strings.HasPrefix(p, "/") {
-		c = "abs"
+		c = "abs,"
+	}
+
+	return c + shapeClass(cwd, p)
+}
+
+var shapeRank = map[string]int{"escape": 7, "dotdot-inside": 6, "empty": 5, "root": 4, "double-slash": 3, "trailing-slash": 2, "dot": 1, "clean": 0}
+
+func shapeClass(cwd, p string) string {
+	if p == "" {
+		return "empty"
 	}
 
 	_, esc, dd := vResolve(cwd, p)
-
-	switch {
-	case esc:
-		c += ",escape"
-	case dd:
-		c += ",dotdot-inside"
-	case strings.Trim(p, "/") == "":
-		c += ",root"
-	default:
-		c += ",clean"
-	}
 
 	hasDot := false
 
@@ -340,17 +354,47 @@ func pathClass(cwd, p string) string {
 	}
 
 	switch {
-	case strings.Contains(strings.TrimPrefix(p, "/"), "//") || strings.HasPrefix(p, "//"):
-		c += ",double-slash"
-	case len(p) > 1 && strings.HasSuffix(p, "/"):
-		c += ",trailing-slash"
+	case esc:
+		return "escape"
+	case dd:
+		return "dotdot-inside"
+	case strings.Trim(p, "/") == "":
+		return "root"
+	case strings.Contains(p, "//"):
+		return "double-slash"
+	case strings.HasSuffix(p, "/"):
+		return "trailing-slash"
 	case hasDot:
-		c += ",dot"
-	default:
-		c += ",plain"
+		return "dot"
 	}
 
-	return c
+	return "clean"
+}
+
+// pairClass: class of the operands of a two-path call: rel if any operand is
+// relative (or empty), then the highest-priority shape of the two.
+func pairClass(cwd, a, b string) string {
+	c := "abs,"
+	if !strings.HasPrefix(a, "/") || !strings.HasPrefix(b, "/") {
+		c = "rel,"
+	}
+
+	sa, sb := shapeClass(cwd, a), shapeClass(cwd, b)
+	if shapeRank[sb] > shapeRank[sa] {
+		sa = sb
+	}
+
+	return c + sa
+}
+
+// coarse maps an outcome kind to ok | error | PANIC | DEADLOCK.
+func coarse(kind string) string {
+	switch kind {
+	case "ok", "PANIC", "DEADLOCK", "absent":
+		return kind
+	}
+
+	return "error"
 }
 
 // reach tells where the wrapper's translation (ToBasePath, then the base's own
@@ -474,9 +518,10 @@ func (s *sys) Step(op int) bfs.StepResult {
 		return bfs.StepResult{Key: s.lastKey, Outcome: "n/a"}
 	}
 
-	vcwd := s.ref.CurDir()
-	bcwd := s.base.CurDir()
-	baseBefore := s.base.VerifDump()
+	// (MemFile.Chdir stores the name as given to Open: clean before use)
+	vcwd := path.Clean(s.ref.CurDir())
+	bcwd := path.Clean(s.base.CurDir())
+	baseBefore := s.baseDump
 
 	args := []string{o.A}
 	if o.Two {
@@ -487,7 +532,7 @@ func (s *sys) Step(op int) bfs.StepResult {
 	rc := reach(bcwd, o.A, baseBefore)
 
 	if o.Two {
-		pc += "|" + pathClass(vcwd, o.B)
+		pc = pairClass(vcwd, o.A, o.B)
 
 		if r2 := reach(bcwd, o.B, baseBefore); r2 != "inside" && rc == "inside" {
 			rc = r2
@@ -498,6 +543,20 @@ func (s *sys) Step(op int) bfs.StepResult {
 
 	if o.Call == "Getwd" {
 		pc, rc = "none", "inside"
+	}
+
+	escaping := strings.HasSuffix(pc, ",escape")
+
+	// Outcome classes in signatures: exact errno names, except where the
+	// operand escapes the virtual root (every difference then has the same
+	// cause and the errno pair only reflects what happens to lie outside B) and
+	// for panics: ok | error.
+	oc := func(kind string) string {
+		if escaping {
+			return coarse(kind)
+		}
+
+		return kind
 	}
 
 	cwdClass := "root"
@@ -532,6 +591,18 @@ func (s *sys) Step(op int) bfs.StepResult {
 
 		diffs = append(diffs, kind+": "+why)
 		viols = append(viols, bfs.Viol{Sig: sig})
+	}
+
+	// a panic while translating a relative operand does not depend on its shape
+	mkp := func(call, w, g, why string) {
+		save := pc
+
+		if strings.HasPrefix(pc, "rel,") && !escaping {
+			pc = "rel,any"
+		}
+
+		mk(call, "panic", w, g, why)
+		pc = save
 	}
 
 	note := func(call, class, w, g, why string) {
@@ -585,8 +656,20 @@ compare:
 			break compare
 		case g.Kind == "PANIC" || g.Kind == "DEADLOCK":
 			sameKinds = false
+			site := panicSite(g.Msg)
+			why := fmt.Sprintf("reference %s, BasePathFS %s: %s", w.Kind, g.Kind, g.Msg)
 
-			mk(call, "panic", w.Kind, g.Kind+":"+panicSite(g.Msg), fmt.Sprintf("reference %s, BasePathFS %s: %s", w.Kind, g.Kind, g.Msg))
+			if rootCase && !strings.Contains(site, "basepathfs") {
+				// the base itself breaks on a call that the reference cannot
+				// even address: a defect of the base type, not of the wrapper
+				note(call, "ref-root-unaddressable", coarse(w.Kind), g.Kind+":"+site, why)
+			} else {
+				mkp(call, coarse(w.Kind), g.Kind+":"+site, why)
+			}
+
+			if i == 0 {
+				break compare // the rest of a compound call follows from it
+			}
 
 			continue
 		case w.Kind != g.Kind:
@@ -596,9 +679,9 @@ compare:
 			case rootCase:
 				note(call, "ref-root-unaddressable", w.Kind, g.Kind, fmt.Sprintf("reference %s (%s), BasePathFS %s (%s)", w.Kind, w.Msg, g.Kind, g.Msg))
 			case readOnly && g.Kind == "ok" && rc != "inside":
-				mk(call, "outside-read", w.Kind, g.Kind, fmt.Sprintf("reference %s, BasePathFS ok: val=%q paths=%q", w.Kind, g.Val, g.Paths))
+				mk(call, "outside-read", oc(w.Kind), g.Kind, fmt.Sprintf("reference %s, BasePathFS ok: val=%q paths=%q", w.Kind, g.Val, g.Paths))
 			default:
-				mk(call, "outcome", w.Kind, g.Kind, fmt.Sprintf("reference %s (%s), BasePathFS %s (%s)", w.Kind, w.Msg, g.Kind, g.Msg))
+				mk(call, "outcome", oc(w.Kind), oc(g.Kind), fmt.Sprintf("reference %s (%s), BasePathFS %s (%s)", w.Kind, w.Msg, g.Kind, g.Msg))
 			}
 
 			if i == 0 {
@@ -647,7 +730,15 @@ compare:
 	}
 
 	// state after the call
-	poisoned := got.poisoned() || want.poisoned()
+	poisoned := want.poisoned()
+
+	for _, g := range got.Subs {
+		// A panic raised by FromBasePath happens in the wrapper after the base
+		// call has returned: no lock of the base is held, the instances stay usable.
+		if (g.Kind == "PANIC" && !strings.HasSuffix(panicSite(g.Msg), "basepathfs.(*BasePathFS).FromBasePath")) || g.Kind == "DEADLOCK" {
+			poisoned = true
+		}
+	}
 
 	var baseAfter, refAfter []string
 
@@ -679,15 +770,15 @@ compare:
 		}
 	}
 
-	newB := s.base.CurDir()
-	newV := s.ref.CurDir()
+	newB := path.Clean(s.base.CurDir())
+	newV := path.Clean(s.ref.CurDir())
 	cwdDiverged := !(underB(newB) && (strings.TrimPrefix(newB, basePath) == newV || (newB == basePath && newV == "/")))
 
 	if cwdDiverged && len(viols) == 0 {
 		mk(o.Call, "cwd", "virtual:"+strClass(newV, args), "base:"+strClass(newB, args), fmt.Sprintf("reference cwd %q, base cwd %q", newV, newB))
 	}
 
-	key := s.key(baseAfter)
+	key := s.key(baseAfter, refAfter)
 	changed := key != s.lastKey
 	mtimeOnly := !changed && (strings.Join(bAfter, "\n") != strings.Join(s.bDump, "\n"))
 	broken := poisoned || outsideChanged || treeDiff != "" || cwdDiverged
@@ -699,13 +790,30 @@ compare:
 		s.lastKey = key
 		s.outside = outsideAfter
 		s.bDump = bAfter
+		s.baseDump = baseAfter
 	}
 
 	return s.finish(o, pc, want, got, viols, diffs, notes, sr)
 }
 
 func (s *sys) finish(o opT, pc string, want, got result, viols []bfs.Viol, diffs, notes []string, sr bfs.StepResult) bfs.StepResult {
-	if len(viols) > 0 {
+	// The full description travels only with the first instance of a signature
+	// seen by this worker (the reporter keeps one replay per signature).
+	fresh := false
+
+	for _, v := range viols {
+		k := v.Sig["call"] + "|" + v.Sig["path"] + "|" + v.Sig["cwd"] + "|" + v.Sig["reach"] + "|" + v.Sig["kind"] + "|" + v.Sig["want"] + "|" + v.Sig["got"]
+		if !s.seenSig[k] {
+			if s.seenSig == nil {
+				s.seenSig = map[string]bool{}
+			}
+
+			s.seenSig[k] = true
+			fresh = true
+		}
+	}
+
+	if fresh {
 		b, _ := json.Marshal(detail{Want: want, Got: got, Diffs: diffs})
 		for i := range viols {
 			viols[i].Detail = string(b)
@@ -733,11 +841,11 @@ func comparePaths(want, got, args []string, notes *[]string) (kind, wc, gc, why 
 	if len(want) != len(got) {
 		for _, g := range got {
 			if leaks(g, strings.Join(want, ",")) {
-				return "leak", fmt.Sprintf("%d-strings", len(want)), "base-prefixed", fmt.Sprintf("reference %q, BasePathFS %q", want, got)
+				return "leak", "list", "base-prefixed", fmt.Sprintf("reference %q, BasePathFS %q", want, got)
 			}
 		}
 
-		return "differs", fmt.Sprintf("%d-strings", len(want)), countClass(len(got), len(want)), fmt.Sprintf("reference %q, BasePathFS %q", want, got)
+		return "differs", "list", countClass(len(got), len(want)), fmt.Sprintf("reference %q, BasePathFS %q", want, got)
 	}
 
 	spelling := false
